@@ -639,7 +639,9 @@ def extract_fn(item, opts, blocks, rewrites_log, as_stub=False):
                     raise GenErr('%s: loop #%d not found' % (item.name, k))
                 cbp = match_close(toks, ci, loops[k - 1][1])
                 pos = tk(cbp)[2]
-                edits.append((pos, pos, G(key, '\n' + gtxt.rstrip() + '\n')))
+                # a body that ends in an expression statement without `;` (e.g. `i += 1 }`): the ghost text supplies the `;`
+                semi = ';' if tk(cbp - 1)[1] not in (';', '}', '{') else ''
+                edits.append((pos, pos, G(key, semi + '\n' + gtxt.rstrip() + '\n')))
                 continue
             occ = find_code_occurrences(text, toks, ci, bodyp, bodye, anchor)
             if n > len(occ):
